@@ -221,6 +221,19 @@ func dataEqual(a, b []float64, tol float64) bool {
 	return true
 }
 
+// nonZero drops zero-length straight segments (a Close that returns to a start point already
+// reached is represented either way).
+func nonZero(segs []oracle.Seg) []oracle.Seg {
+	var out []oracle.Seg
+	for _, s := range segs {
+		if !s.IsCurve() && s.P0 == s.P1 {
+			continue
+		}
+		out = append(out, s)
+	}
+	return out
+}
+
 func checkReverse(r *fw.R, it *item) {
 	sps := it.sps
 	data := oracle.PathData(sps)
@@ -249,6 +262,7 @@ func checkReverse(r *fw.R, it *item) {
 			viol(r, sps, "reverse-closedness", fmt.Sprintf("subpath %d closed=%v, its reversal closed=%v: %s", len(sps)-1-i, in.Closed, o.Closed, oracle.Fmt(qd)))
 			return
 		}
+		in.Segs, o.Segs = nonZero(in.Segs), nonZero(o.Segs)
 		if len(in.Segs) != len(o.Segs) {
 			viol(r, sps, "reverse-structure", fmt.Sprintf("subpath %d has %d segments, its reversal %d: %s", len(sps)-1-i, len(in.Segs), len(o.Segs), oracle.Fmt(qd)))
 			return
@@ -344,12 +358,12 @@ func polylinesOf(sps []oracle.Subpath, n int) []oracle.Polyline {
 }
 
 // hausdorff between two lists of open polylines that should correspond one to one.
-func hausdorff(a, b []oracle.Polyline) float64 {
+func hausdorff(a, b []oracle.Polyline, limit float64) float64 {
 	if len(a) == len(b) {
 		w := 0.0
 		for i := range a {
-			d1, _ := oracle.MaxDistToPolyline(a[i].P, b[i].P, 0)
-			d2, _ := oracle.MaxDistToPolyline(b[i].P, a[i].P, 0)
+			d1, _ := oracle.MaxDistToPolyline(a[i].P, b[i].P, limit)
+			d2, _ := oracle.MaxDistToPolyline(b[i].P, a[i].P, limit)
 			w = math.Max(w, math.Max(d1, d2))
 		}
 		return w
@@ -382,18 +396,18 @@ func checkSplit(r *fw.R, it *item, tr *oracle.Trace, ts []float64) {
 	//    between the cumulative true lengths of the pieces before it and including it
 	cum := []float64{0}
 	for _, d := range dec {
-		cum = append(cum, cum[len(cum)-1]+oracle.PathLength(d))
+		cum = append(cum, cum[len(cum)-1]+oracle.PathLengthN(d, 1024))
 	}
 	total := cum[len(cum)-1]
 	if math.Abs(total-it.L) > 1e-6*it.L {
 		viol(r, sps, "splitat-pieces-are-not-the-path"+sfx, fmt.Sprintf("true length of the path %.9g, of all pieces together %.9g; pieces:%s", it.L, total, desc))
 		return
 	}
-	gtol := 1e-5 * scale
+	gtol := 1e-4 * scale
 	for j, d := range dec {
 		want := tr.Between(cum[j], cum[j+1])
-		got := polylinesOf(d, 1024)
-		if h := hausdorff(got, want); h > gtol {
+		got := polylinesOf(d, 512)
+		if h := hausdorff(got, want, gtol/2); h > gtol {
 			viol(r, sps, "splitat-pieces-are-not-the-path"+sfx, fmt.Sprintf("piece %d is not the stretch [%.6g,%.6g] of the path (Hausdorff %.3g); pieces:%s", j, cum[j], cum[j+1], h, desc))
 			return
 		} else {
@@ -449,7 +463,9 @@ func checkSplit(r *fw.R, it *item, tr *oracle.Trace, ts []float64) {
 		sum += pc.Length()
 	}
 	whole := cv.Path(data).Length()
-	if math.Abs(sum-whole) > 0.01*it.L {
+	if math.Abs(whole-it.L) > 0.01*it.L {
+		r.Count("length_sum_clause_skipped_because_Length_is_off", 1) // reported by the Length clause
+	} else if math.Abs(sum-whole) > 0.01*it.L {
 		viol(r, sps, "splitat-lengths-do-not-sum"+sfx, fmt.Sprintf("Length()=%.9g, sum of piece lengths %.9g", whole, sum))
 	} else {
 		r.Max("splitat_length_sum_rel_diff", math.Abs(sum-whole)/it.L)
@@ -506,7 +522,7 @@ func families(tier string) []fw.Family {
 			}
 			tr := traces[it]
 			if tr == nil {
-				tr = oracle.NewTrace(it.sps, 4096)
+				tr = oracle.NewTrace(it.sps, 2048)
 				traces[it] = tr
 			}
 			checkSplit(r, it, tr, ts)
@@ -527,7 +543,7 @@ func Prop() *fw.Property {
 		ID:    "C09",
 		Level: "exploration",
 		Rule: "path menu: 12 single curves of every segment type, all 144 ordered two-segment chains (thorough: also closed, and all 144 two-subpath pairs), closed shapes, paths of 2-3 subpaths; x every subset of size <= 2 (thorough <= 3) of the split candidates {0, L/4, L/2, 3L/4, L, every vertex arc length, vertex +- 1e-3}; " +
-			"Length within 1 % of the dense-summation length; SplitAt: pieces are consecutive stretches of the path (Hausdorff 1e-5*scale), true lengths add up (1e-6), every requested cut has a piece boundary within tolerance and every boundary was requested, reported lengths sum to Length() (1 %); " +
+			"Length within 1 % of the dense-summation length; SplitAt: pieces are consecutive stretches of the path (Hausdorff 1e-4*scale), true lengths add up (1e-6), every requested cut has a piece boundary within tolerance and every boundary was requested, reported lengths sum to Length() (1 %); " +
 			"Reverse: involution, segment-wise same points backwards (1e-9*scale), same closedness/length/box, winding negated at all grid probes farther than 1.1e-3*scale from the path; non-trivial = a non-empty split set",
 		Assumptions: []string{
 			"cut tolerance: 1e-9*L while everything up to the cut is straight, otherwise max(1 % of the curved length up to the end of the segment around the cut, 1e-3): canvas measures curved segments approximately and positions later cuts with that ruler",
